@@ -768,6 +768,105 @@ static void pairs_section(void) {
             }
         }
     }
+    if (vh_section_begin("bulk")) {
+        /* AddMany with lists of every order class x size class, onto every library set and onto cleared containers */
+        enum { NBULK = 12 };
+        static uint16_t BL[NBULK][5000];
+        static uint32_t BN[NBULK];
+        static const char *BNAME[NBULK] = {"40 non-decreasing with adjacent duplicates", "17 strictly ascending", "16 strictly ascending", "17 non-decreasing with duplicates", "4096 strictly ascending", "4097 non-decreasing with duplicates",
+                                           "40 descending", "20 unsorted with duplicates", "4096 non-decreasing with duplicates", "300 ascending, last repeated", "18 all equal", "4100 strictly ascending"};
+        uint32_t k;
+        for (k = 0; k < 40; k++) BL[0][k] = (uint16_t)(1000 + k / 2);
+        BN[0] = 40;
+        for (k = 0; k < 17; k++) BL[1][k] = (uint16_t)(200 + 3 * k);
+        BN[1] = 17;
+        for (k = 0; k < 16; k++) BL[2][k] = (uint16_t)(200 + 3 * k);
+        BN[2] = 16;
+        for (k = 0; k < 17; k++) BL[3][k] = (uint16_t)(500 + k - (k > 8));
+        BN[3] = 17;
+        for (k = 0; k < 4096; k++) BL[4][k] = (uint16_t)(7 + 5 * k);
+        BN[4] = 4096;
+        for (k = 0; k < 4097; k++) BL[5][k] = (uint16_t)(9 + 3 * (k - (k > 2000)));
+        BN[5] = 4097;
+        for (k = 0; k < 40; k++) BL[6][k] = (uint16_t)(4120 - k);
+        BN[6] = 40;
+        for (k = 0; k < 20; k++) BL[7][k] = (uint16_t)((k * 7919) % 13 * 100);
+        BN[7] = 20;
+        for (k = 0; k < 4096; k++) BL[8][k] = (uint16_t)(11 + 2 * (k / 2));
+        BN[8] = 4096;
+        for (k = 0; k < 300; k++) BL[9][k] = (uint16_t)(60000 + (k < 299 ? k : 298));
+        BN[9] = 300;
+        for (k = 0; k < 18; k++) BL[10][k] = 4096;
+        BN[10] = 18;
+        for (k = 0; k < 4100; k++) BL[11][k] = (uint16_t)(1 + 13 * k);
+        BN[11] = 4100;
+        for (int a = 0; a < NLIB + 2; a++) {
+            for (int b = 0; b < NBULK; b++) {
+                if (!vh_case()) {
+                    continue;
+                }
+                varintBitmap *d;
+                bitset m;
+                char dn[64];
+                if (a < NLIB) {
+                    d = varintBitmapClone(LIB[a]);
+                    m = LIBM[a];
+                    snprintf(dn, sizeof dn, "%s", LIBN[a]);
+                } else {
+                    /* a cleared container: array (a == NLIB) or dense (a == NLIB + 1) */
+                    d = varintBitmapCreate();
+                    if (a == NLIB) {
+                        varintBitmapAdd(d, 5);
+                        varintBitmapAdd(d, 9);
+                    } else {
+                        varintBitmapAddMany(d, BL[11], BN[11]);
+                    }
+                    varintBitmapClear(d);
+                    memset(&m, 0, sizeof m);
+                    snprintf(dn, sizeof dn, a == NLIB ? "cleared array" : "cleared dense");
+                }
+                if (!d) {
+                    continue;
+                }
+                snprintf(cur_hist, sizeof cur_hist, "[%s; addMany(%s)]", dn, BNAME[b]);
+                const char *api = "bitmap.AddMany";
+                if (SB_ENTER()) {
+                    varintBitmapAddMany(d, BL[b], BN[b]);
+                    for (uint32_t i = 0; i < BN[b]; i++) {
+                        bs_set(&m, BL[b][i]);
+                    }
+                    check_observers(api, "destination", d, &m);
+                    /* follow-up: removing a just-added element removes it */
+                    uint16_t x = BL[b][BN[b] / 2];
+                    int got = varintBitmapRemove(d, x);
+                    bs_clr(&m, x);
+                    if (!got || varintBitmapContains(d, x)) {
+                        BFAIL("model_divergence", "%s: then remove(%u) returned %d and contains(%u)=%d", cur_hist, x, got, x, (int)varintBitmapContains(d, x));
+                    }
+                    check_observers("bitmap.Remove", "destination after remove", d, &m);
+                    size_t len = varintBitmapEncode(d, encbuf);
+                    uint8_t *copy = malloc(len ? len : 1);
+                    memcpy(copy, encbuf, len);
+                    varintBitmap *dd = varintBitmapDecode(copy, len);
+                    free(copy);
+                    if (!dd) {
+                        BFAIL("model_divergence", "%s: decode(encode) returned NULL", cur_hist);
+                    } else {
+                        check_observers("bitmap.Encode/Decode", "decoded copy", dd, &m);
+                        varintBitmapFree(dd);
+                    }
+                    SB_LEAVE();
+                } else {
+                    vh_fail(api, vh_fault_name(), "untagged", "%s: %s", cur_hist, vh_fault_msg);
+                }
+                varintBitmapFree(d);
+                vh_count("transitions", 3);
+                vh_count("calls", 3);
+                vh_count("bulk_cases", 1);
+            }
+        }
+        vh_class("bulk/addMany", "%d destinations x %d lists", NLIB + 2, NBULK);
+    }
     if (vh_section_begin("pairs-small")) {
         /* against every library set L: every subset of size 1..3 of a probe alphabet placed relative to L */
         for (int a = 0; a < NLIB; a++) {
